@@ -782,7 +782,7 @@ def readsOf (e : Env) : DecOp → Info → Option (List Read)
 
 /-- the memory after a step (independent of the reads' verdict) -/
 def nextMem (m : Memory) : DecOp → Info → Memory
-  | .block b, .block i => writePieces m b.ofm.region i.ofm.tid (fmPieces b.ofm i.ofm.y0 i.ofm.x0 i.ofm.c0) i.ofm.shift
+  | .block b, .block i => writePieces m b.ofm.region i.ofm.tid (fmPiecesS b.ofm i.ofm.y0 i.ofm.x0 i.ofm.c0 i.ofm.shifts) 0
   | .dma d, .dma i => writePieces m d.dst.region i.dstTid [⟨d.dst.addr, d.dst.len, i.dstDelta⟩] 0
   | _, _ => m
 
@@ -872,10 +872,11 @@ theorem RunOk_iff_forall (e : Env) (init : Memory) (l : List (DecOp × Info)) :
 
 /-! ### the reads of a block / DMA operation spelled out -/
 
-/-- every byte of the footprint of `fm` holds tensor `fi.tid` at the expected canonical offset -/
+/-- every byte of the footprint of `fm` holds tensor `fi.tid` at the expected canonical offset
+    (the pieces of `fmPiecesS` already carry the shift of the tile they lie in) -/
 def FmHolds (m : Memory) (fm : FM) (fi : FmInfo) : Prop :=
-  ∀ p ∈ fmPieces fm fi.y0 fi.x0 fi.c0, ∀ byte, p.covers byte →
-    m.get fm.region byte = some (fi.tid, p.delta + fi.shift)
+  ∀ p ∈ fmPiecesS fm fi.y0 fi.x0 fi.c0 fi.shifts, ∀ byte, p.covers byte →
+    m.get fm.region byte = some (fi.tid, p.delta)
 
 /-- every byte of the range holds the copy of constants-region byte `src + (byte − addr)` -/
 def ConstHolds (m : Memory) (region addr len : Nat) (src : Int) : Prop :=
@@ -885,7 +886,9 @@ theorem fmRead_ok {e : Env} {m : Memory} {what : String} {fm : FM} {fi : FmInfo}
     (h : ∀ r ∈ fmRead e what fm fi, r.Ok m) (hr : fm.region ≠ e.constRegion) : FmHolds m fm fi := by
   unfold fmRead at h
   rw [if_neg hr] at h
-  exact h _ List.mem_cons_self
+  intro p hp byte hb
+  have := h _ List.mem_cons_self p hp byte hb
+  simpa using this
 
 theorem constReads_ok {e : Env} {m : Memory} {what : String} {rs : List AddrRange} {srcs : List Int}
     (h : ∀ r ∈ constReads e what rs srcs, r.Ok m) {rg : AddrRange} {src : Int}
